@@ -23,7 +23,9 @@ Flags == {"none", "-h", "-print-default-template", "-print-ctrl-i"}
 Exits == {"ctrl-c", "ctrl-d"}
 \* what is going on when the operator ends a healthy run: nothing, one stream attached, a whole
 \* shell, a shell with output muted, half a line typed, a shell flooding the terminal with output
-ServeStates == {"idle", "half", "shell", "muted", "typed", "flood"}
+\* ("flood-1cpu": the same with the program confined to one processor, where the terminal cannot
+\* keep up with the shell)
+ServeStates == {"idle", "half", "shell", "muted", "typed", "flood", "flood-1cpu"}
 
 VARIABLES
   sst,       \* state of the healthy run when it is ended (only varied for fault-free configurations)
